@@ -288,3 +288,31 @@ package ext
 //@   props C09, C14
 //@   modifies rs._all
 //@   top-ensures isFresh(rs)
+
+// ---- C04: a chunked body is the reader's data, one chunk per non-empty read, then exactly one last chunk ----
+//@ ghost var wbcTerm bool
+//@ func WriteBodyChunked(w, r) err
+//@   props C04
+//@   abstract
+//@   noinline
+//@   panics
+//@   modifies wbcTerm
+//@   ghostset-at-entry wbcTerm = false
+//@   assert before WriteChunk#0: !wbcTerm && len(arg1) == 0 && n == 0
+//@   ghostset after WriteChunk#0: wbcTerm = (result == nil)
+//@   assert before WriteChunk#1: !wbcTerm && n > 0 && sameSlice(arg1, buf[:n]) && arg2
+//@   top-ensures err == nil ==> wbcTerm
+//@   loop 0:
+//@     invariant !wbcTerm
+
+// WriteTrailer hands the serialised trailer block to the writer, once.
+//@ ghost var wtN int
+//@ func WriteTrailer(t, w) err
+//@   props C04
+//@   abstract
+//@   noinline
+//@   modifies wtN
+//@   ghostset-at-entry wtN = 0
+//@   ghostset after WriteBinary: wtN = wtN + 1
+//@   top-ensures wtN == 1
+
